@@ -1,6 +1,7 @@
 package streams
 
 import (
+	"math"
 	"sort"
 
 	"go.mongodb.org/mongo-driver/bson"
@@ -508,8 +509,51 @@ func (g *apiGen) bulkModel(db, coll string) apiBulk {
 	}
 }
 
-// next generates the next call of the history.
+// canonNaNVal replaces every NaN by the canonical quiet NaN: the payload of an arithmetic
+// result is decided by the hardware (amd64 propagates the operand's payload, the model yields
+// the canonical NaN), and in a history it would leak into ModifiedCount and the oplog.
+func canonNaNVal(v interface{}) interface{} {
+	switch x := v.(type) {
+	case float64:
+		if math.IsNaN(x) {
+			return math.Float64frombits(0x7ff8000000000000)
+		}
+	case bson.D:
+		for i := range x {
+			x[i].Value = canonNaNVal(x[i].Value)
+		}
+	case bson.A:
+		for i := range x {
+			x[i] = canonNaNVal(x[i])
+		}
+	}
+	return v
+}
+
+func canonNaNDocs(ds []bson.D) {
+	for _, d := range ds {
+		canonNaNVal(d)
+	}
+}
+
+// next generates the next call of the history (NaN payloads canonicalised).
 func (g *apiGen) next() *apiCall {
+	c := g.next0()
+	for _, d := range []bson.D{c.Doc, c.Q, c.U, c.Repl, c.Sort, c.Proj, c.Keys, c.Partial} {
+		canonNaNVal(d)
+	}
+	canonNaNDocs(c.Docs)
+	canonNaNDocs(c.Filters)
+	for _, m := range c.Models {
+		for _, d := range []bson.D{m.Doc, m.Q, m.U, m.Repl} {
+			canonNaNVal(d)
+		}
+		canonNaNDocs(m.Filters)
+	}
+	return c
+}
+
+func (g *apiGen) next0() *apiCall {
 	r := g.r
 	c := &apiCall{}
 	c.DB, c.Coll = g.handle()
